@@ -95,13 +95,43 @@ func classifyErrUse(call *ssa.Call) errUse {
 				} else {
 					continue
 				}
-				return classifyFailureBranch(fn, fail, errVal)
+				// not final: the same error may ALSO be carried to a return through a variable (`err = f();
+				// if err != nil { log; err = ErrX }; ...; return err`), which reports it; the verdict is the
+				// strongest use, independent of the order in which the uses are listed
+				cand := classifyFailureBranch(fn, fail, errVal)
+				if rank(cand.Class) > rank(best.Class) {
+					best = cand
+				}
 			}
 		case *ssa.Phi:
 			// err flows into a variable that is tested/returned later
 			for _, rr := range nonDebugRefs(x) {
 				if _, ok := rr.(*ssa.Return); ok {
 					best = errUse{"propagated", "returned through a variable"}
+				}
+			}
+			// ... possibly after a test of the variable
+			for _, rr := range nonDebugRefs(x) {
+				if bo, ok := rr.(*ssa.BinOp); ok {
+					for _, r3 := range nonDebugRefs(bo) {
+						if ifi, ok := r3.(*ssa.If); ok {
+							atoms := ir.CondAtoms(bo, true)
+							if len(atoms) != 1 {
+								continue
+							}
+							var fail *ssa.BasicBlock
+							if strings.HasPrefix(atoms[0], "!eq(") {
+								fail = ifi.Block().Succs[0]
+							} else if strings.HasPrefix(atoms[0], "eq(") {
+								fail = ifi.Block().Succs[1]
+							} else {
+								continue
+							}
+							if cand := classifyFailureBranch(fn, fail, x); rank(cand.Class) > rank(best.Class) {
+								best = cand
+							}
+						}
+					}
 				}
 			}
 		case *ssa.Store:
@@ -273,4 +303,19 @@ func ErrorCensus(p *ir.Program, files map[string]bool) map[string][]string {
 		}
 	}
 	return out
+}
+
+// rank orders the classes of an error's uses: the strongest use decides.
+func rank(class string) int {
+	switch class {
+	case "propagated":
+		return 5
+	case "fatal":
+		return 4
+	case "swallowed":
+		return 2
+	case "dropped":
+		return 1
+	}
+	return 0 // unknown
 }
